@@ -161,7 +161,7 @@ class Flat:
 # ----------------------------------------------------------------------------
 # CoHDL rendering
 # ----------------------------------------------------------------------------
-def render(prog, reset=None, entity="T", on_reset=False):
+def render(prog, reset=None, entity="T", on_reset=False, c04=False):
     """reset: None | dict(is_async=bool, active_low=bool)"""
     f = Flat(prog)
     out = ["from cohdl import std, Entity, Port, Bit, Unsigned, Signal, Variable", "import cohdl", ""]
@@ -177,6 +177,8 @@ def render(prog, reset=None, entity="T", on_reset=False):
             if k == "site":
                 n = f.site_no[(lid, idx)]
                 lines += [pre + f"{env}.o <<= {n}", pre + f"{env}.p{n} ^= True", pre + "v @= v + 1", pre + f"{env}.ov <<= v"]
+                if c04:
+                    lines += [pre + f"{env}.ond <<= {n}", pre + f"{env}.onr <<= {n}", pre + f"{env}.orst <<= 1"]
             elif k == "await":
                 lines.append(pre + "await " + AWAIT[st[1]][0].replace("self.", env + "."))
             elif k == "if":
@@ -209,13 +211,21 @@ def render(prog, reset=None, entity="T", on_reset=False):
     out.append("    ov = Port.output(Unsigned[2], default=0)")
     for n in range(1, f.nsites + 1):
         out.append(f"    p{n} = Port.output(Bit, default=False)")
+    if c04:
+        out.append("    ond = Port.output(Unsigned[3])")
+        out.append("    onr = Port.output(Unsigned[3], default=0, noreset=True)")
+        out.append("    orst = Port.output(Unsigned[2], default=0)")
     out.append("    def architecture(self):")
     out.append("        v = Variable[Unsigned[2]](0)")
+    if c04 and on_reset:
+        out.append("        def on_rst():")
+        out.append("            self.orst <<= 3")
+    onr = ", on_reset=on_rst" if (c04 and on_reset) else ""
     if reset is None:
         out.append("        @std.sequential(std.Clock(self.clk))")
     else:
         out.append(f"        @std.sequential(std.Clock(self.clk), std.Reset(self.rst, is_async={reset['is_async']}, "
-                   f"active_low={reset['active_low']}))")
+                   f"active_low={reset['active_low']}){onr})")
     out.append("        async def proc():")
     out.append("            nonlocal v")
     out += block(f.top, 3, "self")
@@ -238,8 +248,13 @@ class RefMachine:
     """State: (mode, stack, o, ov, v) ; stack = tuple of (lid, idx) frames, innermost last.
     step(inputs) advances one clock and returns the output dict."""
 
-    def __init__(self, flat: Flat):
+    def __init__(self, flat: Flat, c04=False, on_reset=False):
         self.f = flat
+        self.c04 = c04
+        self.on_reset = on_reset
+        self.ond = None   # no default: undefined until first assignment, kept by reset
+        self.onr = 0      # noreset: kept by reset
+        self.orst = 0
         self.reset_state()
 
     def reset_state(self):
@@ -251,13 +266,15 @@ class RefMachine:
         self.pulses = frozenset()
 
     def snapshot(self):
-        return (self.mode, self.stack, self.o, self.ov, self.v, self.pulses)
+        return (self.mode, self.stack, self.o, self.ov, self.v, self.pulses, self.ond, self.onr, self.orst)
 
     def restore(self, s):
-        self.mode, self.stack, self.o, self.ov, self.v, self.pulses = s
+        self.mode, self.stack, self.o, self.ov, self.v, self.pulses, self.ond, self.onr, self.orst = s
 
     def outputs(self):
         d = {"o": self.o, "ov": self.ov}
+        if self.c04:
+            d.update(ond=self.ond, onr=self.onr, orst=self.orst)
         for n in range(1, self.f.nsites + 1):
             d[f"p{n}"] = 1 if n in self.pulses else 0
         return d
@@ -333,6 +350,10 @@ class RefMachine:
                 n = f.site_no[(lid, idx)]
                 o_next = n
                 pulses.add(n)
+                if self.c04:
+                    self.ond = n
+                    self.onr = n
+                    self.orst = 1
                 self.v = (self.v + 1) & 3
                 ov_next = self.v
                 first = False
@@ -392,7 +413,10 @@ class RefMachine:
         return self.outputs()
 
     def do_reset(self):
+        """reset active at the sampling instant: resettable objects take their defaults, the coroutine returns to its
+        first state, on_reset actions run; objects without default / noreset keep their value"""
         self.reset_state()
+        self.orst = 3 if self.on_reset else 0
 
 
 # ----------------------------------------------------------------------------
